@@ -5,3 +5,4 @@ import PdeVerif.Props.C01
 import PdeVerif.Props.C05
 import PdeVerif.Props.C12
 import PdeVerif.Props.C18
+import PdeVerif.Props.C16
